@@ -155,6 +155,26 @@ CHECKS = {
         "note": "Snapshot goes through public accessors; an exception of a read-only operation is not counted as a "
                 "mutation.",
     },
+    "C11": {
+        "technique": "property-based / model-based testing: generated histories interleaving queries (cache fill) and "
+                     "public mutators; differential oracle = the same queries on an object rebuilt through the public "
+                     "constructors from the current primary data; list model for update_initial_state histories",
+        "text": "Four machines (dynamic obstacle / prediction, lanelet, lanelet network / scenario incl. deepcopy and "
+                "pickle, traffic-light cycle), ~10k histories per quick run, every step followed by the full query "
+                "comparison. Exploration only.",
+        "note": "Lookups compared as sets with a boundary band, also against brute force; circle queries excluded "
+                "(recorded C06 finding).",
+    },
+    "C12": {
+        "technique": "property-based testing: per class a recipe strategy covering every constructor parameter "
+                     "(self-checked against inspect.signature); oracle = equality / hash contract on independent "
+                     "rebuilds, deepcopies, id-set permutations and single-parameter perturbations judged by a "
+                     "public-attribute snapshot",
+        "text": "52 facets (one per class), ~55k cases per quick run, one perturbation per constructor parameter per "
+                "case; hash checked last so a raising __hash__ cannot hide comparison defects. Exploration only.",
+        "note": "Real perturbations >= 1e-9 absolute (|v| <= 1e3) or >= 1e-6 relative; snapshot differences below "
+                "5e-10 create no obligation.",
+    },
 }
 
 NOT_APPLICABLE = [{"property_id": p, "reason": "check not built yet (work in progress; will be claimed once its "
